@@ -130,7 +130,11 @@ class PropertyRun:
         for j in jobs:
             key = hashlib.sha1(j["smt2"].encode()).hexdigest()
             uniq.setdefault(key, []).append(j)
-        reps = [v[0] for v in uniq.values()]
+        reps = []
+        for v in uniq.values():
+            rep = dict(v[0])
+            rep["names"] = sorted(set(j["name"] for j in v))
+            reps.append(rep)
         out = smt.discharge_all(reps)
         for (key, group), r in zip(uniq.items(), out):
             for j in group:
